@@ -23,7 +23,7 @@ Lemma nn_eqb_spec a b : nn_eqb a b = true <-> a = b.
 Proof. apply pair_eqb_spec; intros; apply Nat.eqb_eq. Qed.
 
 Lemma runobs_eqb_spec a b :
-  runobs_eqb a b = true <-> (r_log a, r_left a, r_attrs a) = (r_log b, r_left b, r_attrs b).
+  runobs_eqb a b = true <-> (r_log a, r_left a, normal (r_attrs a)) = (r_log b, r_left b, normal (r_attrs b)).
 Proof.
   unfold runobs_eqb. rewrite !andb_true_iff.
   rewrite (list_eqb_spec lev_eqb lev_eqb_spec), Nat.eqb_eq, (list_eqb_spec nn_eqb nn_eqb_spec).
@@ -167,7 +167,7 @@ Section act_ind'.
   Hypothesis HO : forall a, (forall t body, a <> ACleanup t body) -> P a.
   Fixpoint act_ind' (a : act) : P a.
   Proof.
-    destruct a as [n loc | loc v | mm | mm | t body | x v | fx | h | | c o | r p | e];
+    destruct a as [n loc | loc v | mm | mm | t body | x v | fx | h | | c o | r p | pk | e];
       try (apply HO; intros; discriminate).
     apply HC. induction body as [|x r IH]; constructor; [apply act_ind' | exact IH].
   Defined.
@@ -263,6 +263,16 @@ Proof. destruct (observe_spec p s0) as (r & s & O & L & K & A & _ & _ & St & _).
 
 Theorem patch_restored p s0 k : aget k (r_attrs (fst (observe p s0))) = aget k (attrs s0).
 Proof. destruct (observe_spec p s0) as (r & s & O & L & K & A & _). rewrite O. cbn [fst]. now rewrite A. Qed.
+
+(* the namespaces are literally what they were: no target keeps a value it only inherited or did not
+   have (no shadow is left behind), and getattr finds for every target what it found before *)
+Theorem namespaces_restored p s0 :
+  attrs (snd (observe p s0)) = attrs s0
+  /\ forall k, getattr k (attrs (snd (observe p s0))) = getattr k (attrs s0).
+Proof.
+  destruct (observe_spec p s0) as (r & s & O & L & K & A & _ & A' & _). rewrite O. cbn [snd].
+  split; [exact A' | intros k; now rewrite A'].
+Qed.
 
 Theorem rerun i :
   let o := model i in
